@@ -11,7 +11,7 @@ def run(ses):
     from pyvc import frame as _frame
 
     _frame.purity_obligation(ses)
-    records.check_units(ses, ("image10s", "image11s"), ["table", "frame"])
+    records.check_units(ses, ("image10s", "image11s"), ["table", "frame", "wf"])  # wf: the code admits every input the contract admits (enum codes, numeric text)
     from props import analyses
 
     analyses.bounded_tables(ses, ('image10s', 'image11s'), 12 if ses.tier == "quick" else 300)
